@@ -126,8 +126,9 @@ class IntermediateCodeGen(AbstractCodeGen):
         outDict['class'] = 'imports'
         for module in sorted(imports):
             symbols = []
-            for symbol in set(imports[module]):
-                symbols.append(symbol)
+            for symbol in imports[module]:
+                if symbol not in symbols:
+                    symbols.append(symbol)
 
             if symbols:
                 self._seenSyms.update(
